@@ -595,8 +595,10 @@ def run(s):
                 bad.append("%s._ is not `return cls.create(*args)`" % cls)
         if mod.aliases.get("E_") != E or mod.aliases.get("C_") != C:
             bad.append("E_/C_ aliases: %r" % mod.aliases)
-        if util.c_.__func__ is not voigt.ModulusRepresentation._.__func__ or util.e_.__func__ is not voigt.StrainRepresentation._.__func__:
-            bad.append("imported aliases differ")
+        fn = lambda x: getattr(x, "__func__", x)
+        if fn(util.c_) is not fn(voigt.ModulusRepresentation._) or fn(util.e_) is not fn(voigt.StrainRepresentation._) or fn(util.s_) is not fn(voigt.ModulusRepresentation._):
+            bad.append("the imported shorthands c_ / e_ / s_ are not the classes' own `_` (they are %s objects: whatever they do to the argument happens before create() validates it)"
+                       % type(util.c_).__name__)
         if bad:
             return core.refuted("frames", "aliases are not bound to create(): %s" % bad, witness_id="aliases")
         return core.proved("frames", "c_, s_ = C_._ ; e_ = E_._ ; _ forwards to create")
